@@ -48,6 +48,20 @@ func cliExit(r *Run) {
 		r.Probe("file-at-16KiB")
 		forceAppend0 = t.Bool(1, 2, "append-to-16k-file")
 	}
+	twin := -1
+	if !par1Set && len(w.Files) >= 2 && t.Bool(1, 8, "content-twin") {
+		// two protected files with the same content (a copy kept under a
+		// second name): the slices of one survive in the other
+		twin = 1 + t.Draw(len(w.Files)-1, "twin")
+		src := t.Draw(twin, "twin-of")
+		if len(w.Files[src].Data) > 0 {
+			w.Files[twin].Data = append([]byte(nil), w.Files[src].Data...)
+			w.Disk.Put(w.Path(twin), w.Files[twin].Data)
+			r.Probe("content-twin")
+		} else {
+			twin = -1
+		}
+	}
 	longGap := false
 	if par1Set && t.Bool(1, 10, "many-volumes") {
 		w.R = 18 + t.Draw(12, "nvolumes")
@@ -283,6 +297,9 @@ func cliExit(r *Run) {
 	if longGap && t.Bool(2, 3, "long-gap-state") {
 		state = "recovery-subset-lost"
 	}
+	if twin >= 0 && t.Bool(1, 2, "twin-lost") {
+		state = "twin-lost"
+	}
 	recoveryDamaged := false
 	r.Probe("state:" + state)
 	recPaths := w.RecoveryPaths()
@@ -378,6 +395,16 @@ func cliExit(r *Run) {
 			r.Logf("state: all recovery files deleted")
 			if w.AllIntact() {
 				state = "intact"
+			}
+		}
+	case "twin-lost":
+		// the copy is gone, and so are some or all of the recovery files:
+		// nothing needs reconstructing, every slice is still on the disk
+		w.Disk.Remove(w.Path(twin))
+		r.Logf("state: %q (a copy of another protected file) deleted", w.Files[twin].Name)
+		for _, p := range recPaths {
+			if t.Bool(2, 3, "lose-recovery-file") {
+				w.Disk.Remove(p)
 			}
 		}
 	case "no-parity":
